@@ -115,6 +115,10 @@ PROPS.update({
              "exclusion patterns; tree edits at any depth (add, remove, rename, retype file<->directory, content edit, mtime-only touch, "
              "mkdir, remove sub-tree) and node type/filter edits between builds in new frontends; the consumer must re-execute iff the "
              "digest of what the node covers changed. Non-trivial: a tree edit happened and the consumer re-ran at least once."),
+    "C14": b("histories of (expected outputs, roots) for a stale-file-removal command over a path pool with shared prefixes (/r vs /rr), "
+             "trailing and doubled separators, relative paths, the empty string, directories with content, a path equal to a root; new "
+             "frontend (process) per build; the set of paths removed from the simulated file system during the build (mutation log) "
+             "must equal the statement's predicate, and nothing else may be touched. Non-trivial: >= 2 builds and a path was removed."),
     "C11": b("commands read undeclared paths spelled with every character special to the formats (space # $ backslash colon, relative, "
              "absolute, sub-directories) and report them in Makefile-style (single line, continuations, CRLF, several rules) or "
              "dependency-info files; recovered paths are compared byte for byte, later edits/creations/deletions of those paths must "
